@@ -39,7 +39,7 @@ type regIn struct {
 // It must run in a child process: unsynchronised map access inside the store
 // is a fatal error that cannot be recovered.
 func ConcurrentDiag(seed int64) ConcResult {
-	const nKeys, nReaders, nBlocks = 3, 4, 400
+	const nKeys, nReaders, nBlocks = 3, 4, 2000
 	res := ConcResult{}
 	cs := storage.NewChainState("conc", tmdb.NewMemDB())
 	_ = cs.SetupRotation(config.ChainStateRotationCfg{Recent: 1000, Every: 0, Cycles: 0})
